@@ -5,6 +5,13 @@ reader/writer, the runtime phases and the TOML helpers, no `Result` carrying an 
 error is dropped (`let _ =`, `.ok()`, `unwrap_or*`, `is_ok()`, match without reading the error).
 "The k-th file-system call fails" for every k is exactly the statement that no call site discards
 its error.  Not decided: that the directory afterwards differs from a successful run.
+
+R4 sharpens "discarded" to the property's own wording — *no success outcome is reachable while the
+Result is Err*: an error that is read (logged, matched, handed to an `or_else` / `unwrap_or_else`
+handler, kept in a variable that is overwritten) but not returned is a violation; the only accepted
+continuations are NotFound on deletes / on reads of optional inputs and errors confined to a variant
+that carries no I/O error.  R5 follows Results that travel inside `Option<..>`, as items of iterators
+(`fs::read_dir`, `xs.iter().map(fallible)`) and as closure parameters, which R1's type filter never sees.
 """
 import re
 from .lib.discard import result_fates, verdict
@@ -189,6 +196,145 @@ def check_not_found_helper(prog, rep, slicer):
                   'the not-found predicate accepts other error kinds: ' + str([repr(c) for c in conds]))
 
 
+def _sites(fns):
+    """the R1 sites: (fn, call, subject) for every call returning Result<_, E> of the property's subject"""
+    for path in sorted(fns):
+        f = fns[path]
+        per_callee = {}
+        for c in f.calls:
+            if c.indirect or not c.dty or not c.dty.startswith('std::result::Result<') or not ERR_RX.search(c.dty):
+                continue
+            if c.is_('std::ops::Try::branch') or (c.name or '').endswith('::from_residual'):
+                continue
+            k = per_callee.get(c.name, 0)
+            per_callee[c.name] = k + 1
+            yield f, c, '%s/%s#%d' % (f.path, c.name, k)
+
+
+def _report(rep, rule, subject, where, res, ok_msg):
+    status, why = res
+    if status in ('ok', 'tolerated'):
+        rep.holds(rule, subject, where, ok_msg + ((' (%s)' % why) if status == 'tolerated' and why else ''))
+    elif status == 'violated':
+        rep.violated(rule, subject, where, why)
+    else:
+        rep.unproven(rule, subject, where, why or 'not decided')
+
+
+def _carrying_fns(prog, fns):
+    """workspace functions in scope that return a Result of *another* error type (`Result<(), String>`,
+    `Box<dyn Error>`..) although a failure of the subject can end in their Err: they contain (transitively, inside
+    the scope) a call returning Result<_, E> of the subject.  A call to such a function is a site of R4 as well."""
+    direct = {p for p, f in fns.items()
+              if any((not c.indirect) and c.dty and c.dty.startswith('std::result::Result<') and ERR_RX.search(c.dty) for c in f.calls)}
+    out = set()
+    for p, f in fns.items():
+        if not f.ret.startswith('std::result::Result<') or ERR_RX.search(f.ret) or f.kind == 'Closure':
+            continue
+        reach = prog.reach([f], stop=lambda g: g.path not in fns)
+        if any(q in direct for q in reach):
+            out.add(p)
+    return out
+
+
+def _extra_sites(prog, fns):
+    carry = _carrying_fns(prog, fns)
+    if not carry:
+        return
+    for path in sorted(fns):
+        f = fns[path]
+        per = {}
+        for c in f.calls:
+            if c.indirect or not c.dty or not c.dty.startswith('std::result::Result<') or ERR_RX.search(c.dty):
+                continue
+            if not any(g.path in carry for g in prog.callee_fns(c)):
+                continue
+            k = per.get(c.name, 0)
+            per[c.name] = k + 1
+            yield f, c, '%s/%s#%d' % (f.path, c.name, k)
+
+
+def check_err_flow(prog, rep, slicer, fns, tag=''):
+    """R4: for every R1 site that R1 accepts — can the enclosing function still reach a success outcome when the
+    Result is Err?  Accepted explanations: the NotFound tolerance on deletes, a match whose continuing Err arms are
+    confined to NotFound / non-I/O variants.  (Sites R1 already reports as discarded are not repeated.)"""
+    from . import layer_roles
+    EF = H.ErrFlow(prog, slicer, layer_roles.roles(prog, slicer))
+    n = tol = 0
+    for f, c, subject in _sites(fns):
+        fates = result_fates(prog, f, c)
+        v = verdict(fates)
+        if v == 'discarded':
+            continue        # R1 reports it (or explains it as a stat predicate)
+        n += 1
+        res = EF.site(f, c)
+        tol += res[0] == 'tolerated'
+        _report(rep, 'R4', subject + tag, c.where(), res,
+                'a failure of %s cannot end in a success outcome of %s' % (c.name, f.path))
+    for f, c, subject in _extra_sites(prog, fns):
+        # the error type is not one of the subject's, but the callee fails when a file operation fails
+        n += 1
+        _report(rep, 'R4', subject + tag, c.where(), EF.site(f, c),
+                'a failure of %s (which carries file-system failures) cannot end in a success outcome of %s' % (c.name, f.path))
+    rep.check(n >= 100, 'R4', 'sites' + tag, '-', '%d Result sites examined' % n, 'only %d Result sites found (expected >= 100)' % n)
+    rep.extra['tolerated_failures'] = tol
+    return EF
+
+
+def check_carriers(prog, rep, slicer, fns, EF, tag=''):
+    """R5: Results travelling inside Option<..>, as items of iterators, or as parameters of closures"""
+    from .lib.mir import op_place
+    car = H.Carriers(prog, ERR_RX)
+    n_opt = 0
+    for path in sorted(fns):
+        f = fns[path]
+        per = {}
+        for c in f.calls:
+            if c.indirect:
+                continue
+            key = c.name or '?'
+            # (a) Option<Result<_, E>> produced by a call (`Iterator::next` of a fallible stream, `opt.map(fallible)`)
+            if c.dty and car.is_opt_result(c.dty) and c.dest and len(c.dest) == 1 and c.dest[0] != 0:
+                k = per.get(('o', key), 0)
+                per[('o', key)] = k + 1
+                n_opt += 1
+                _report(rep, 'R5', 'option/%s/%s#%d%s' % (f.path, key, k, tag), c.where(), EF.option(f, [c.dest[0]], c),
+                        'an Err inside the Option<Result> of %s cannot end in a success outcome of %s' % (key, f.path))
+            # (b) a stream of Results handed to an adapter / consumer
+            for ai, a in enumerate(c.args):
+                pl = op_place(a)
+                if not pl or len(pl) != 1 or pl[0] >= len(f.locals):
+                    continue
+                ty = f.locals[pl[0]]['ty']
+                if car.is_result(ty) or car.is_opt_result(ty):
+                    continue
+                ir = car.item_result(ty)
+                if ir is False:
+                    continue
+                k = per.get(('s', key), 0)
+                per[('s', key)] = k + 1
+                subj = 'stream/%s/%s#%d%s' % (f.path, key, k, tag)
+                if ir is None:
+                    rep.unproven('R5', subj, c.where(), 'cannot decide whether %s carries Results of the subject' % ty[:120])
+                    continue
+                _report(rep, 'R5', subj, c.where(), H.stream_consumer(car, prog, slicer, f, c, fns, EF.helper),
+                        'the stream of Results reaches a consumer that keeps the element errors')
+        # (c) Result-typed parameters (elements handed to closures of adapters, helpers taking a Result by value)
+        if f.path == EF.helper:
+            continue
+        for i in range(1, f.argc + 1):
+            ty = f.locals[i]['ty'] if i < len(f.locals) else ''
+            if car.is_result(ty):
+                res = EF.place(f, [i], None)
+            elif car.is_opt_result(ty):
+                res = EF.option(f, [i], None)
+            else:
+                continue
+            _report(rep, 'R5', 'param/%s/%d%s' % (f.path, i, tag), '%s:%d' % (f.file, f.line), res,
+                    'an Err passed in parameter %d cannot end in a success outcome of %s' % (i, f.path))
+    rep.extra['option_result_carriers'] = n_opt
+
+
 def run(ctx, rep):
     rep.rule('R1', 'no call returning Result<_, io/TOML/layer error> reachable from the layer API, env reader/writer, '
                    'runtime phases or TOML helpers has its error discarded on any path (A9 fate analysis)')
@@ -200,3 +346,9 @@ def run(ctx, rep):
     nb = check_buffered_writers(ctx.prog, rep, ctx.slicer, fns)
     rep.extra['buffered_writers_in_scope'] = nb
     check_not_found_helper(ctx.prog, rep, ctx.slicer)
+    rep.rule('R4', 'no Result of the subject can be Err while the enclosing function reaches a success outcome, except '
+                   'NotFound on deliberate best-effort deletes and errors confined to a non-I/O variant')
+    rep.rule('R5', 'Results carried inside Option<..>, as items of iterators (fs::read_dir, mapped fallible closures) or as '
+                   'closure parameters are consumed so that an element error ends in failure')
+    EF = check_err_flow(ctx.prog, rep, ctx.slicer, fns)
+    check_carriers(ctx.prog, rep, ctx.slicer, fns, EF)
